@@ -185,10 +185,6 @@ void harness(void)
 	VERIF_COVER(ret == 0 && set_by_pax == 0);
 	VERIF_COVER(ret == 0 && set_by_pax != 0);
 	VERIF_COVER(ret == -1 && g_buf != NULL);
-#if ENTSIZE >= 8
-	VERIF_COVER(ret == 0 && g_flags_applied != 0 &&
-		    g_buf[ENTSIZE / 2 - 1] == '\0');	/* two lines */
-#endif
 #if ENTSIZE >= 24
 	VERIF_COVER(ret == 0 && out.sparse != NULL);
 #endif
